@@ -67,6 +67,13 @@ VALUES = [
     '{"outer": {"z": {"b", "a"}, "y": [frozenset({"d", "c"}), {"f", "e"}]}}',
     '[{"b", "a"}, {2, 1}, set(), frozenset()]',
     '({"x", "y", "z"}, frozenset({"x"}), {"k": set("hello")})',
+    # one-element tuples and other containers whose text is produced by their own repr method: what is nested in them must go through
+    # the same (sorting) repr
+    '({"x", "y", "z", "w"},)',
+    '(frozenset({"p", "q", "r", "s"}),)',
+    '[({"b", "a", "c", "d"},), ((frozenset({"f", "e", "g"}),),)]',
+    '{"t": ({"m", "n", "o", "l"},)}',
+    '({"x", "y", "z", "w"}, 1)',
     # Enum members (Enum.__hash__ hashes the name: seed dependent; not orderable -> sorted by repr)
     "Color.RED",
     "{Color.RED, Color.GREEN, Color.BLUE}",
